@@ -26,7 +26,7 @@ def default_caps_worker(spec):
         gs = [Grammar.from_json(j) for j in spec['grammars']]
         runtime = {i for i in range(len(gs)) if i % 2 == 1}
         try:
-            exe = common.build(eg.emit_tu(gs, runtime_ctor=runtime), 'clang', extra=eg.mode_defines([0]))
+            exe, hook_ok = eg.build_tu(eg.emit_tu(gs, runtime_ctor=runtime), 'clang', extra=eg.mode_defines([0]))
         except common.BuildError as e:
             if len(gs) == 1:
                 g = gs[0]
@@ -87,7 +87,7 @@ def limits_worker(spec):
         g = Grammar.from_json(spec['grammar']); rnd = random.Random(spec['seed'])
         tb = ref_lr1.build(g)
         # stage 1: real need with default limits
-        exe = common.build(eg.emit_tu([g]), 'clang', extra=eg.mode_defines([0]))
+        exe, hook_ok = eg.build_tu(eg.emit_tu([g]), 'clang', extra=eg.mode_defines([0]))
         rc, recs, dumps, meta, err = eg.run_jobs(exe, [('D', 0)], timeout=120)
         h = dg.parse_diag(dumps[0]['diag']).header
         ns, ni = h['states'], h['max_sit']
@@ -102,7 +102,7 @@ def limits_worker(spec):
             decls.append(body)
             calls.append('  variant("%s", []() -> decltype(auto) { return g%d::get(); }, inputs);' % (tag, k))
         src = LIM_TMPL % {'decls': '\n'.join(decls), 'calls': '\n'.join(calls)}
-        exe2 = common.build(src, 'clang', extra=eg.mode_defines([0]), name='limits')
+        exe2, _ = eg.build_tu(src, 'clang', extra=eg.mode_defines([0]), name='limits')
         import tempfile, os
         d = os.path.join(common.WORK, 'jobs'); os.makedirs(d, exist_ok=True)
         fd, path = tempfile.mkstemp(prefix='l', dir=d)
@@ -143,7 +143,7 @@ def limits_worker(spec):
             for fl in ('gsyntax', 'csyntax'):
                 C['constant_evaluations_of_construction'] += 1
                 try:
-                    common.build(src, fl, name='limct'); ok = True
+                    common.build(src, fl, name='limct', extra=['-DVF_NO_ACCESS']); ok = True
                 except common.BuildError as e:
                     ok = False; diag = e.diag
                 if tag == 'exact' and not ok:
@@ -188,7 +188,7 @@ def stack_worker(spec):
             lit = eg.cstr(d.decode('latin-1'))
             calls.append('  { int a = one(cstring_buffer(%s)); int b = one(string_buffer(std::string(%s, %d))); std::printf("S %d %%d %%d\\n", a, b); }' % (lit, lit, len(d), k))
         src = STACK_TMPL % {'decl': eg.emit_one(g, 0), 'calls': '\n'.join(calls)}
-        exe = common.build(src, 'asan0', extra=eg.mode_defines([0]), name='stacks')
+        exe, _ = eg.build_tu(src, 'asan0', extra=eg.mode_defines([0]), name='stacks')
         rc, so, se, to = common.run(exe, timeout=300)
         text = so.decode('latin-1')
         if 'END' not in text:
